@@ -1636,8 +1636,9 @@ def _gen_py_lit(g):
     import ast as _a
     tree = _a.parse(g.rng.choice(_PY_SNIPPETS))
     parents = {c: p for p in _a.walk(tree) for c in _a.iter_child_nodes(p)}
-    nodes = [n for n in _a.walk(tree) if isinstance(n, _a.Constant) and isinstance(n.value, int)
-             and (not isinstance(n.value, bool) or g.rng.random() < 0.3)]
+    ints = [n for n in _a.walk(tree) if isinstance(n, _a.Constant) and isinstance(n.value, int)]
+    # (bool constants are no longer collected by the analyzer; the downstream functions still accept them)
+    nodes = [n for n in ints if not isinstance(n.value, bool) or g.rng.random() < 0.3] or ints
     n = g.rng.choice(nodes)
     return (n, parents.get(n), n.value, n.lineno)
 
